@@ -211,6 +211,10 @@ pub fn run(ctx: &Ctx) -> Report {
         let ndest = if complete { 3 } else { 2 };
         for di in 0..ndest {
             for k in 0..n_ops[di] + 2 {
+                // Miri: every 5th fault point (rotating with the destination) keeps the shard short
+                if cfg!(miri) && (k + di) % 5 != 0 {
+                    continue;
+                }
                 for persistent in [false, true] {
                     let case = format!("c12:t{}:h{}:{}:d{}:k{}:{}", t, hi, wname, di, k, if persistent { "persistent" } else { "oneshot" });
                     if !ctx.want(&case) {
@@ -267,9 +271,9 @@ pub fn run(ctx: &Ctx) -> Report {
             }
         }
         // ---- short writes: every chunking schedule must give byte-identical output
-        let mut schedules: Vec<Chunking> = (1..=8).map(Chunking::Fixed).collect();
+        let mut schedules: Vec<Chunking> = (1..=if cfg!(miri) { 2 } else { 8 }).map(Chunking::Fixed).collect();
         schedules.push(Chunking::Fixed(64));
-        for s in 0..ctx.pick(50, 300) {
+        for s in 0..if cfg!(miri) { 1 } else { ctx.pick(50, 300) } {
             schedules.push(Chunking::Random(ctx.seed ^ (s as u64 * 7919 + 13), 1 + s % 9));
         }
         for (si, sch) in schedules.iter().enumerate() {
